@@ -420,6 +420,9 @@ func (g *Gen) unop(v *ssa.UnOp) {
 		r := g.v(v)
 		g.guard(eq(r, g.loadLV(lv)))
 		g.guard(g.typeFacts(r, v.Type()))
+		if gl, ok := v.X.(*ssa.Global); ok && g.P.NonNilGlobals[gl] {
+			g.guard(not(eq(r, "0")))
+		}
 	}
 }
 
